@@ -133,8 +133,17 @@ func c13Setup() *c13PKI {
 	return p
 }
 
+// ocspSignerKey returns the responder's signing key: zcrypto's RSA type for RSA
+// keys (PKCS#1 v1.5, deterministic), and for ECDSA a wrapper that signs per
+// RFC 6979 instead of drawing from crypto/rand as CreateResponse would — the
+// response bytes, and with them every fault offset, are then a function of the
+// scenario alone.
 func ocspSignerKey(name string) crypto.Signer {
-	return kit.TLSKey(name).(crypto.Signer) // zcrypto's RSA type for RSA keys, standard ECDSA otherwise
+	k := kit.TLSKey(name).(crypto.Signer)
+	if ek, ok := k.(*ecdsa.PrivateKey); ok {
+		return kit.DetSigner{Signer: ek}
+	}
+	return k
 }
 
 func hashFor(h int) hash.Hash {
